@@ -32,13 +32,13 @@ macro "sub_close" : tactic =>
     repeat (first | assumption | exact List.Subset.refl _ | apply sub_app)))
 
 mutual
-  theorem compile_jumps_sub (env env' : CEnv) (ha : env.always = env'.always) (hd : env'.dry = true) :
+  theorem compile_jumps_sub (env env' : CEnv) (ha : env.always = env'.always) :
       ∀ (e : Expr) (ko : Nat) (pd pmk : Bool) (st : CSt),
-      jumps (compile env e ko pd pmk st).code ⊆ jumps (compile env' e ko false false st).code
+      jumps (compile env e ko pd pmk st).code ⊆ jumps (compile env' e ko pd pmk st).code
     | .dot, ko, pd, pmk, st => by cases pd <;> simp [compile, jumps, Instr.target?]
     | .name n, ko, pd, pmk, st => by simp only [compile, ha]; exact List.Subset.refl _
     | .inl n e, ko, pd, pmk, st => by
-      simpa only [compile] using compile_jumps_sub env env' ha hd e ko pd pmk st
+      simpa only [compile] using compile_jumps_sub env env' ha e ko pd pmk st
     | .rng lo hi, ko, pd, pmk, st => by cases pd <;> simp [compile, jumps, Instr.target?]
     | .chr c, ko, pd, pmk, st => by cases pd <;> cases pmk <;> simp [compile, jumps, Instr.target?]
     | .str s, ko, pd, pmk, st => by simp only [compile]; exact List.Subset.refl _
@@ -48,85 +48,85 @@ mutual
     | .nil, ko, pd, pmk, st => by simp only [compile]; exact List.Subset.refl _
     | .push e r, ko, pd, pmk, st => by
       rw [jumps_push, jumps_push]
-      exact compile_jumps_sub env env' ha hd e ko pd pmk _
+      exact compile_jumps_sub env env' ha e ko pd pmk _
     | .ipush e r, ko, pd, pmk, st => by
       rw [jumps_ipush, jumps_ipush]
-      exact compile_jumps_sub env env' ha hd e ko pd pmk _
+      exact compile_jumps_sub env env' ha e ko pd pmk _
     | .alt es, ko, pd, pmk, st => by
-      have h := compileAlt_jumps_sub env env' ha hd es st.label ko pd pmk ⟨st.label + 1, st.sw⟩
+      have h := compileAlt_jumps_sub env env' ha es st.label ko pd pmk ⟨st.label + 1, st.sw⟩
       simp only [compile, jumps_append, jumps_lbl]
       sub_close
     | .ualt ks es, ko, pd, pmk, st => by
-      have h := compileCases_jumps_sub env env' ha hd ks es st.sw 0 ko ⟨st.label + 1, st.sw + 1⟩
+      have h := compileCases_jumps_sub env env' ha ks es st.sw 0 ko ⟨st.label + 1, st.sw + 1⟩
       simp only [compile, jumps_append, jumps_lbl]
       sub_close
     | .seq es, ko, pd, pmk, st => by
-      simpa only [compile] using compileSeq_jumps_sub env env' ha hd es ko pd pmk st
+      simpa only [compile] using compileSeq_jumps_sub env env' ha es ko pd pmk st
     | .peekFor e, ko, pd, pmk, st => by
-      have h := compile_jumps_sub env env' ha hd e ko pd pmk ⟨st.label + 1, st.sw⟩
+      have h := compile_jumps_sub env env' ha e ko pd pmk ⟨st.label + 1, st.sw⟩
       simp only [compile, jumps_append]
       sub_close
     | .peekNot e, ko, pd, pmk, st => by
-      have h := compile_jumps_sub env env' ha hd e st.label pd pmk ⟨st.label + 1, st.sw⟩
+      have h := compile_jumps_sub env env' ha e st.label pd pmk ⟨st.label + 1, st.sw⟩
       simp only [compile, jumps_append, jumps_lbl]
       sub_close
     | .query e, ko, pd, pmk, st => by
-      have h := compile_jumps_sub env env' ha hd e st.label pd pmk ⟨st.label + 2, st.sw⟩
+      have h := compile_jumps_sub env env' ha e st.label pd pmk ⟨st.label + 2, st.sw⟩
       simp only [compile, jumps_append, jumps_lbl]
       sub_close
     | .star e, ko, pd, pmk, st => by
-      have h := compile_jumps_sub env env' ha hd e (st.label + 1) pd pmk ⟨st.label + 2, st.sw⟩
+      have h := compile_jumps_sub env env' ha e (st.label + 1) pd pmk ⟨st.label + 2, st.sw⟩
       simp only [compile, jumps_append, jumps_lbl]
       sub_close
     | .plus e, ko, pd, pmk, st => by
       have hs := compile_st_indep env env' e ko ko false false false false ⟨st.label + 2, st.sw⟩
-      have h1 := compile_jumps_sub env env' ha hd e ko false false ⟨st.label + 2, st.sw⟩
-      have h2 := compile_jumps_sub env env' ha hd e (st.label + 1) false false
+      have h1 := compile_jumps_sub env env' ha e ko false false ⟨st.label + 2, st.sw⟩
+      have h2 := compile_jumps_sub env env' ha e (st.label + 1) false false
         (compile env e ko false false ⟨st.label + 2, st.sw⟩).st
       simp only [compile, jumps_append, jumps_lbl, ← hs]
       sub_close
-  theorem compileSeq_jumps_sub (env env' : CEnv) (ha : env.always = env'.always) (hd : env'.dry = true) :
+  theorem compileSeq_jumps_sub (env env' : CEnv) (ha : env.always = env'.always) :
       ∀ (es : List Expr) (ko : Nat) (pd pmk : Bool) (st : CSt),
-      jumps (compileSeq env es ko pd pmk st).code ⊆ jumps (compileSeq env' es ko false false st).code
+      jumps (compileSeq env es ko pd pmk st).code ⊆ jumps (compileSeq env' es ko pd pmk st).code
     | [], ko, pd, pmk, st => by simp only [compileSeq]; exact List.Subset.refl _
     | [e], ko, pd, pmk, st => by
-      simpa only [compileSeq] using compile_jumps_sub env env' ha hd e ko pd pmk st
+      simpa only [compileSeq] using compile_jumps_sub env env' ha e ko pd pmk st
     | e :: e' :: es, ko, pd, pmk, st => by
-      have hs := compile_st_indep env env' e ko ko pd pmk false false st
-      have h1 := compile_jumps_sub env env' ha hd e ko pd pmk st
-      have h2 := compileSeq_jumps_sub env env' ha hd (e' :: es) ko false false
+      have hs := compile_st_indep env env' e ko ko pd pmk pd pmk st
+      have h1 := compile_jumps_sub env env' ha e ko pd pmk st
+      have h2 := compileSeq_jumps_sub env env' ha (e' :: es) ko false false
         (compile env e ko pd pmk st).st
       simp only [compileSeq, jumps_append, ← hs]
       sub_close
-  theorem compileAlt_jumps_sub (env env' : CEnv) (ha : env.always = env'.always) (hd : env'.dry = true) :
+  theorem compileAlt_jumps_sub (env env' : CEnv) (ha : env.always = env'.always) :
       ∀ (es : List Expr) (ok ko : Nat) (pd pmk : Bool) (st : CSt),
-      jumps (compileAlt env es ok ko pd pmk st).code ⊆ jumps (compileAlt env' es ok ko false false st).code
+      jumps (compileAlt env es ok ko pd pmk st).code ⊆ jumps (compileAlt env' es ok ko pd pmk st).code
     | [], ok, ko, pd, pmk, st => by simp only [compileAlt]; exact List.Subset.refl _
     | [e], ok, ko, pd, pmk, st => by
-      simpa only [compileAlt] using compile_jumps_sub env env' ha hd e ko pd pmk st
+      simpa only [compileAlt] using compile_jumps_sub env env' ha e ko pd pmk st
     | e :: e' :: es, ok, ko, pd, pmk, st => by
-      have hs := compile_st_indep env env' e st.label st.label pd pmk false false ⟨st.label + 1, st.sw⟩
-      have h1 := compile_jumps_sub env env' ha hd e st.label pd pmk ⟨st.label + 1, st.sw⟩
-      have h2 := compileAlt_jumps_sub env env' ha hd (e' :: es) ok ko false false
+      have hs := compile_st_indep env env' e st.label st.label pd pmk pd pmk ⟨st.label + 1, st.sw⟩
+      have h1 := compile_jumps_sub env env' ha e st.label pd pmk ⟨st.label + 1, st.sw⟩
+      have h2 := compileAlt_jumps_sub env env' ha (e' :: es) ok ko false false
         (compile env e st.label pd pmk ⟨st.label + 1, st.sw⟩).st
       simp only [compileAlt, jumps_append, jumps_lbl, ← hs]
       sub_close
-  theorem compileCases_jumps_sub (env env' : CEnv) (ha : env.always = env'.always) (hd : env'.dry = true) :
+  theorem compileCases_jumps_sub (env env' : CEnv) (ha : env.always = env'.always) :
       ∀ (ks : List KeySet) (es : List Expr) (sw i done : Nat) (st : CSt),
       jumps (compileCases env ks es sw i done st).code ⊆ jumps (compileCases env' ks es sw i done st).code
     | ks, [], sw, i, done, st => by simp only [compileCases]; exact List.Subset.refl _
     | ks, [e], sw, i, done, st => by
-      have h := compile_jumps_sub env env' ha hd e done false false st
+      have h := compile_jumps_sub env env' ha e done false false st
       simp only [compileCases, jumps_append, jumps_brk]
       sub_close
     | ks, e :: e' :: es, sw, i, done, st => by
-      have hs := compile_st_indep env env' e done done (!env.dry)
-        (!env.dry && decide ((ks.headD []).card > 1)) false false st
-      have h1 := compile_jumps_sub env env' ha hd e done (!env.dry)
-        (!env.dry && decide ((ks.headD []).card > 1)) st
-      have h2 := compileCases_jumps_sub env env' ha hd ks.tail (e' :: es) sw (i + 1) done
-        (compile env e done (!env.dry) (!env.dry && decide ((ks.headD []).card > 1)) st).st
-      simp only [compileCases, jumps_append, jumps_brk, hd, Bool.not_true, Bool.false_and, ← hs]
+      have hs := compile_st_indep env env' e done done true
+        (decide ((ks.headD []).card > 1)) true (decide ((ks.headD []).card > 1)) st
+      have h1 := compile_jumps_sub env env' ha e done true
+        (decide ((ks.headD []).card > 1)) st
+      have h2 := compileCases_jumps_sub env env' ha ks.tail (e' :: es) sw (i + 1) done
+        (compile env e done true (decide ((ks.headD []).card > 1)) st).st
+      simp only [compileCases, jumps_append, jumps_brk, ← hs]
       sub_close
 end
 
@@ -136,7 +136,7 @@ end
     the first rule with that name, and its jumps were printed by any pass with `dry = true` that
     agrees on `always` (the dry pass). -/
 theorem compileRules_findS {o : Opts} {env env' : CEnv} {cnt : String → Nat} {bodyOf : Rule → Expr}
-    (ha : env.always = env'.always) (hd : env'.dry = true) (n : String) :
+    (ha : env.always = env'.always) (n : String) :
     ∀ (rules : List Rule) (st : CSt) (cr : Code),
       (compileRules o env cnt bodyOf rules st).find n = some cr →
       ∃ (r : Rule) (ko sw : Nat), rules.find? (fun r => r.name == n) = some r ∧
@@ -156,11 +156,11 @@ theorem compileRules_findS {o : Opts} {env env' : CEnv} {cnt : String → Nat} {
         List.mem_cons_self .., (ruleFunc env' r (bodyOf r) st.label ⟨st.label + 1, st.sw⟩).1,
         by simp [slotCode, hs], ?_⟩
       rw [jumps_ruleFunc]
-      apply compile_jumps_sub env env' ha hd
+      apply compile_jumps_sub env env' ha
       rw [← jumps_ruleFunc, ← hcr]
       exact hl
     · rw [if_neg hn] at h
-      obtain ⟨r', ko, sw, h1, h2, h3, h4⟩ := compileRules_findS ha hd n rs _ cr h
+      obtain ⟨r', ko, sw, h1, h2, h3, h4⟩ := compileRules_findS ha n rs _ cr h
       refine ⟨r', ko, sw, by simp [hn, h1], h2, h3, ?_⟩
       intro l hl
       have := h4 l hl
@@ -331,7 +331,7 @@ theorem compileAll_worldS {G : Grammar} {o : Opts} {cfg : Cfg} {inp : List Sym}
       rw [compileAll_eq] at hfind
       obtain ⟨r, ko, sw, hr, _⟩ :=
         compileRules_findS (env' := dryEnv o G) (rfl : (realEnv o G).always = (dryEnv o G).always)
-          rfl n G.rules ⟨0, 0⟩ cr hfind
+          n G.rules ⟨0, 0⟩ cr hfind
       have hfindG : G.find n = some r := hr
       rw [hfindG]; rfl
     exact LinkedOK.idInj hL (g n1 h1) (g n2 h2) hid
@@ -340,7 +340,7 @@ theorem compileAll_worldS {G : Grammar} {o : Opts} {cfg : Cfg} {inp : List Sym}
     rw [compileAll_eq] at hfind
     obtain ⟨r, ko, sw, hr, hslot, hcr, hj⟩ :=
       compileRules_findS (env' := dryEnv o G) (rfl : (realEnv o G).always = (dryEnv o G).always)
-        rfl n G.rules ⟨0, 0⟩ cr hfind
+        n G.rules ⟨0, 0⟩ cr hfind
     have hbody : bodyOf o G r = r.body := by simp [bodyOf, hinl]
     rw [hbody] at hcr
     have hfindG : G.find n = some r := hr
